@@ -27,6 +27,9 @@ type fnSummary struct {
 	writes  map[string]string // param -> first reason
 	ext     map[string]bool   // external callees that receive parameter-rooted reference data
 	dynamic map[string]bool   // calls of function values (not literals) with parameter-rooted data
+	// parameters whose memory a result may point into (a `return` of a parameter-rooted reference: the To* views
+	// hand back the pointer they were given)
+	retAlias map[string]bool
 }
 
 type purity struct {
@@ -132,6 +135,40 @@ func (p *purity) rootOf(sc *scope, e ast.Expr) (param string, viaRef bool) {
 			case "Collection", "GetLink", "GetID", "GetType", "First", "Bytes":
 				if r, _ := p.rootOf(sc, sel.X); r != "" {
 					return r, true
+				}
+			}
+		}
+		// a function of the package whose result may point into one of its parameters
+		if names, recv, _, _ := p.calleeName(v); len(names) > 0 {
+			var roots []string
+			if recv != nil {
+				r, _ := p.rootOf(sc, recv)
+				roots = append(roots, r)
+			}
+			for _, a := range v.Args {
+				r, _ := p.rootOf(sc, a)
+				if tv, ok := p.x.info.Types[a]; ok && !isRefType(tv.Type) {
+					r = ""
+				}
+				roots = append(roots, r)
+			}
+			for _, n := range names {
+				cs := p.sums[n]
+				if cs == nil || len(cs.retAlias) == 0 {
+					continue
+				}
+				cparams := cs.params
+				if recv == nil && len(cparams) > len(v.Args) {
+					cparams = cparams[len(cparams)-len(v.Args):]
+				}
+				for i, cp := range cparams {
+					j := i
+					if j >= len(roots) {
+						j = len(roots) - 1
+					}
+					if j >= 0 && cs.retAlias[cp] && roots[j] != "" {
+						return roots[j], true
+					}
 				}
 			}
 		}
@@ -424,6 +461,12 @@ func (p *purity) stmt(sc *scope, st ast.Stmt) {
 	case *ast.ReturnStmt:
 		for _, e := range v.Results {
 			p.expr(sc, e)
+			if r, _ := p.rootOf(sc, e); r != "" {
+				if tv, ok := p.x.info.Types[e]; ok && isRefType(tv.Type) && !sc.fn.retAlias[r] {
+					sc.fn.retAlias[r] = true
+					p.changed = true
+				}
+			}
 		}
 	case *ast.DeclStmt:
 		if gd, ok := v.Decl.(*ast.GenDecl); ok {
@@ -528,7 +571,7 @@ func (x *Extractor) genPurity() string {
 			continue
 		}
 		keys = append(keys, k)
-		s := &fnSummary{name: k, writes: map[string]string{}, ext: map[string]bool{}, dynamic: map[string]bool{}}
+		s := &fnSummary{name: k, writes: map[string]string{}, ext: map[string]bool{}, dynamic: map[string]bool{}, retAlias: map[string]bool{}}
 		if fd.Recv != nil {
 			for _, f := range fd.Recv.List {
 				for _, n := range f.Names {
